@@ -164,16 +164,16 @@ func (o *oracleC15) AfterStep(w *World, st *Step, msgs []sdk.Msg, res *abci.Resp
 		if !o.pre.bal.Equal(post.bal) || !sameRecs(o.pre.recs, post.recs) || !sameSet(o.pre.provs, post.provs) {
 			w.Violate("C15:failed-but-changed:"+kind, "tx failed (code %d %s) but balances/records changed", res.Code, res.Codespace)
 		}
-		// fault-free, clearly legal single messages must not be rejected
+		// fault-free, clearly legal single messages that are rejected are counted (reach measure), not reported
 		if st.Fault == "" && st.Gas == 0 && len(msgs) == 1 && st.Kind == "tx" {
 			switch m := msgs[0].(type) {
 			case *storagetypes.MsgInitProvider:
 				if !o.pre.provs[m.Creator] && o.pre.bal.Of(canonAddr(m.Creator), denom).GTE(sdk.NewInt(o.pre.price)) {
-					w.Violate("C15:legal-init-rejected", "init by %s with sufficient funds and no provider record failed: %s", m.Creator, res.Log)
+					w.Probe("legal_init_rejected") // not a violation: the statement constrains successful registrations only
 				}
 			case *storagetypes.MsgShutdownProvider:
 				if o.pre.provs[m.Creator] {
-					w.Violate("C15:legal-shutdown-rejected", "shutdown by registered provider %s failed: %s", m.Creator, res.Log)
+					w.Probe("legal_shutdown_rejected") // not a violation: the statement says what a shutdown returns, not when one must be granted
 				}
 			}
 		}
@@ -201,8 +201,9 @@ func (o *oracleC15) AfterStep(w *World, st *Step, msgs []sdk.Msg, res *abci.Resp
 		switch m := m.(type) {
 		case *storagetypes.MsgInitProvider:
 			if provs[m.Creator] {
-				w.Violate("C15:double-init-accepted", "init by already registered %s succeeded", m.Creator)
-				return
+				// not a violation by itself: the statement constrains the accounting (debit = price, escrow =
+				// sum of records), which is checked below and by the invariant
+				w.Probe("init_by_registered_provider_accepted")
 			}
 			p := sdk.NewInt(o.pre.price)
 			if balOf(canonAddr(m.Creator)).LT(p) {
